@@ -9,7 +9,9 @@
     int32 agrees while every position, size and n stays below 2^31 - 64. *)
 From Coq Require Import ZArith List Bool Sorted.
 From Low Require Import Lib.Bits Lib.BitSeq Model.BuilderOps Model.BitmapOf Spec.OfSpec
-  Proofs.OfProofs Proofs.OfInspect Proofs.OfRoundTrip Proofs.BuilderProofs.
+  Proofs.OfProofs Proofs.OfInspect Proofs.OfRoundTrip Proofs.BuilderProofs
+  Model.BitmapMask12 Spec.MaskSpec12 Proofs.MaskProofs Model.BitmapFmt12 Spec.FmtSpec12 Proofs.FmtProofs12
+  Model.Rank Model.BitmapNext Spec.OfQuerySpec Proofs.OfCompose Proofs.OfTotal Proofs.BuilderLen Model.BitmapOf32 Proofs.Of32 Proofs.BuilderEqOf.
 Import ListNotations.
 Open Scope Z_scope.
 
@@ -175,6 +177,206 @@ Theorem C12_Builder_Extend_Of : forall n subs sizes,
 Proof. exact Builder_Extend_Of. Qed.
 Print Assumptions C12_Builder_Extend_Of.
 
+(** the literal reading of "any sequence of Builder.Extend calls yields the bitmap Of would build": where OfMany is
+    applicable (ascending shifted concatenation), NewBuilder(n) followed by one Extend per segment leaves Words equal
+    WORD FOR WORD (same length, same words) to the slice OfMany returns, and Offset = the sum of the sizes *)
+Theorem C12_Builder_Extend_eq_OfMany : forall n subs sizes,
+  0 <= n -> ofmany_dom subs sizes = true ->
+  Forall (fun ps => sortedb ps = true /\ nonnegb ps = true) subs ->
+  exists b0 b, NewBuilder n = Some b0 /\ bfold b0 (extends subs sizes) = Some b /\
+    OfMany subs sizes = Some (Words b) /\ Offset b = total sizes.
+Proof. exact Builder_Extend_eq_OfMany. Qed.
+Print Assumptions C12_Builder_Extend_eq_OfMany.
+
+(** the exact number of words after any history (Extend grows to the words needed for max(Offset + size,
+    Offset + last + 1 when last >= size), Set to the word of p, nothing ever shrinks), and with it Words itself:
+    it is THE word list of that length whose 1-bits are the positions set so far *)
+Theorem C12_Builder_words_exact : forall n ops,
+  0 <= n -> forallb bop_dom ops = true ->
+  exists b0 b, NewBuilder n = Some b0 /\ bfold b0 ops = Some b /\
+    let st := fold_left alen_step ops (0, abs0) in
+    zlen (Words b) = fst st /\ Offset b = aoff (snd st) /\
+    forall ws, words_ok ws -> zlen ws = fst st -> ones (flat ws) = usort (abits (snd st)) -> ws = Words b.
+Proof. exact Builder_words_exact. Qed.
+Print Assumptions C12_Builder_words_exact.
+
+(** * membership: "Get, Get1, SafeGet and SafeGet1 report membership of a position" on the bitmap Of builds *)
+Theorem C12_Of_membership : forall ps opt,
+  StronglySorted Z.lt ps -> (forall p, In p ps -> 0 <= p) ->
+  exists r, Of ps opt = Some r /\
+    (forall i, SafeGet1 r i = Some (Z.b2z (member ps i)) /\ (SafeGet r i = Some 0 <-> ~ In i ps)) /\
+    (forall i, 0 <= i < 64 * zlen r -> Get1 r i = Some (Z.b2z (member ps i)) /\ (Get r i = Some 0 <-> ~ In i ps)).
+Proof. exact Of_membership. Qed.
+Print Assumptions C12_Of_membership.
+
+(** * the size hypothesis, discharged: Go's int32 arithmetic (Model/BitmapOf32.v: every [+] wrapped by [i32], the
+    truncating [int32(len * 64)]) coincides with the unbounded model used above, below these explicit bounds
+    (MaxI32 = 2^31 - 1).  So each theorem above holds of the int32 code for inputs within the bounds. *)
+Theorem C12_int32_Of : forall ps opt,
+  (ps <> [] -> - 2^31 <= last ps 0 + 1 <= MaxI32) -> of_bits ps opt + 63 <= MaxI32 ->
+  Of32 ps opt = Of ps opt.
+Proof. exact Of32_eq. Qed.
+Print Assumptions C12_int32_Of.
+
+Theorem C12_int32_OfMany : forall subs sizes,
+  length subs = length sizes -> om_bounded subs sizes 0 ->
+  (shifted subs sizes 0 <> [] -> - 2^31 <= last (shifted subs sizes 0) 0 + 1 <= MaxI32) ->
+  of_bits (shifted subs sizes 0) (Some (total sizes)) + 63 <= MaxI32 ->
+  OfMany32 subs sizes = OfMany subs sizes.
+Proof. exact OfMany32_eq. Qed.
+Print Assumptions C12_int32_OfMany.
+
+(** [om_bounded] (every running sum and every shifted position is an int32) holds for non-negative sizes and
+    positions whose sum / shifted values do not exceed MaxI32 *)
+Theorem C12_int32_OfMany_bound : forall subs sizes base,
+  0 <= base -> Forall (fun s => 0 <= s) sizes -> Forall (Forall (fun p => 0 <= p)) subs ->
+  base + total sizes <= MaxI32 ->
+  (forall p, In p (shifted subs sizes base) -> p <= MaxI32) ->
+  om_bounded subs sizes base.
+Proof. exact om_bounded_nonneg. Qed.
+Print Assumptions C12_int32_OfMany_bound.
+
+Theorem C12_int32_ToArray : forall ws, 64 * zlen ws <= MaxI32 -> ToArray32 ws = ToArray ws.
+Proof. exact ToArray32_eq. Qed.
+Print Assumptions C12_int32_ToArray.
+
+(** a Builder history in which every call keeps Offset + size, Offset + last + 1 and p + 1 within int32 *)
+Theorem C12_int32_Builder : forall ops a b,
+  binv a b -> forallb bop_dom ops = true -> hist_bounded a ops -> bfold32 b ops = bfold b ops.
+Proof. exact bfold32_eq. Qed.
+Print Assumptions C12_int32_Builder.
+
+(** ... which holds whenever the final Offset and every position set so far fit in an int32 *)
+Theorem C12_int32_Builder_bound : forall ops a,
+  forallb bop_dom ops = true ->
+  aoff (fold_left astep ops a) <= MaxI32 ->
+  (forall q, In q (abits (fold_left astep ops a)) -> q + 1 <= MaxI32) ->
+  hist_bounded a ops.
+Proof. exact hist_bounded_final. Qed.
+Print Assumptions C12_int32_Builder_bound.
+
+(** * widening: the mask tables of bitmap/mask.go (Get/SafeGet read [Bit]) *)
+(** every read of Mask/RMask (any integer index): the closed forms 2^i - 1 / 2^64 - 2^i inside 0..64,
+    a panic outside *)
+Theorem C12_Mask_table : forall i,
+  mask_at i = if (0 <=? i) && (i <=? 64) then Some (Mask i, RMask i) else None.
+Proof. exact mask_at_exact. Qed.
+Print Assumptions C12_Mask_table.
+
+Theorem C12_Bit_table : forall i,
+  bit_at i = if (0 <=? i) && (i <? 64) then Some (MaskUpto i, RMaskUpto i, Bit i, RBit i) else None.
+Proof. exact bit_at_exact. Qed.
+Print Assumptions C12_Bit_table.
+
+(** which bits the entries have: Mask[j] the low j bits, RMask[j] the other bits of the word *)
+Theorem C12_Mask_bits : forall j t, 0 <= j <= 64 -> 0 <= t ->
+  Z.testbit (Mask j) t = (t <? j) /\ Z.testbit (RMask j) t = ((j <=? t) && (t <? 64)).
+Proof. exact mask_bits. Qed.
+Print Assumptions C12_Mask_bits.
+
+(** MaskUpto[j] bits 0..j, RMaskUpto[j] the bits above j, Bit[j] bit j only, RBit[j] all but bit j *)
+Theorem C12_Bit_bits : forall j t, 0 <= j < 64 -> 0 <= t ->
+  Z.testbit (MaskUpto j) t = (t <=? j) /\ Z.testbit (RMaskUpto j) t = ((j <? t) && (t <? 64)) /\
+  Z.testbit (Bit j) t = (t =? j) /\ Z.testbit (RBit j) t = (negb (t =? j) && (t <? 64)).
+Proof. exact bit_bits. Qed.
+Print Assumptions C12_Bit_bits.
+
+(** * widening: bitmap.Fmt (bitmap/fmt.go), the printer users combine with Of / ToArray *)
+(** any integer kind (1, 2, 4, 8 bytes, signed or not: the value's two's-complement bits), single value
+    or slice of any length: no panic; every integer is printed as its bits, position 0 first, '0'/'1',
+    groups of 8 separated by ' ', integers separated by ','.  Any other type panics, except an empty slice *)
+Theorem C12_Fmt : forall sz isslice xs, Fmt sz isslice xs = spec_Fmt sz isslice xs.
+Proof. exact Fmt_exact. Qed.
+Print Assumptions C12_Fmt.
+
+(** a slice of sz-byte integers: the printed characters other than the separators are the concatenated
+    bit sequences *)
+Theorem C12_Fmt_digits : forall sz xs,
+  digits_of (sjoin [44] (map (spec_int sz) xs)) = map sdigit (flat_map (bits (8 * sz)) xs).
+Proof. exact Fmt_digits. Qed.
+Print Assumptions C12_Fmt_digits.
+
+(** a bitmap: Fmt shows exactly [flat ws], and the p-th digit is '1' exactly for the positions ToArray lists *)
+Theorem C12_Fmt_words : forall ws,
+  exists s, Fmt 8 true ws = Some s /\ digits_of s = map sdigit (flat ws).
+Proof. exact Fmt_words. Qed.
+Print Assumptions C12_Fmt_words.
+
+Theorem C12_Fmt_words_ones : forall ws s p,
+  Fmt 8 true ws = Some s -> 0 <= p ->
+  (nth_error (digits_of s) (Z.to_nat p) = Some 49 <-> In p (ones (flat ws))).
+Proof. exact Fmt_words_ones. Qed.
+Print Assumptions C12_Fmt_words_ones.
+
+(** * widening: the constructors composed with the readers of C01 (Rank64/Rank128) and C13 (NextOne/PrevOne) *)
+(** on ANY bitmap whose 1-positions are the list s, with freshly built indexes: the rank at i is the number of
+    elements of s below i, the bit is membership of i, NextOne/PrevOne are the first/last element in [i, e) or -1 *)
+Theorem C12_query_by_ones : forall ws s,
+  words_ok ws -> ones (flat ws) = s ->
+  forall i e tr, 0 <= i <= e -> e <= 64 * zlen ws -> i < 64 * zlen ws -> 1 <= e ->
+  Rank64 ws (IndexRank64 ws tr) i = Some (count_below s i, Z.b2z (member s i)) /\
+  Rank128 ws (IndexRank128 ws) i = Some (count_below s i, Z.b2z (member s i)) /\
+  NextOne ws i e = Some (first_within s i e) /\
+  PrevOne ws i e = Some (last_within s i e).
+Proof. exact query_by_ones. Qed.
+Print Assumptions C12_query_by_ones.
+
+(** the bitmap Of builds from ascending positions answers every query by the position list itself *)
+Theorem C12_Of_query : forall ps opt,
+  StronglySorted Z.lt ps -> (forall p, In p ps -> 0 <= p) ->
+  exists r, Of ps opt = Some r /\ zlen r = words_for (of_bits ps opt) /\
+  forall i e tr, 0 <= i <= e -> e <= 64 * zlen r -> i < 64 * zlen r -> 1 <= e ->
+  Rank64 r (IndexRank64 r tr) i = Some (count_below ps i, Z.b2z (member ps i)) /\
+  Rank128 r (IndexRank128 r) i = Some (count_below ps i, Z.b2z (member ps i)) /\
+  NextOne r i e = Some (first_within ps i e) /\
+  PrevOne r i e = Some (last_within ps i e).
+Proof. exact Of_query_ascending. Qed.
+Print Assumptions C12_Of_query.
+
+(** sorted with duplicates, on the domain of the check ([query_dom]) *)
+Theorem C12_Of_query_sorted : forall ps opt i e tr,
+  query_dom ps opt i e = true ->
+  exists r, Of ps opt = Some r /\
+    (Rank64 r (IndexRank64 r tr) i, Rank128 r (IndexRank128 r) i, NextOne r i e, PrevOne r i e) =
+    (let '(a, b, c, d) := spec_query (usort ps) i e in (Some a, Some b, Some c, Some d)).
+Proof. exact Of_query. Qed.
+Print Assumptions C12_Of_query_sorted.
+
+(** the Words of a Builder after any history answer every query by the positions set so far *)
+Theorem C12_Builder_query : forall n ops,
+  0 <= n -> forallb bop_dom ops = true ->
+  exists b0 b, NewBuilder n = Some b0 /\ bfold b0 ops = Some b /\
+  let s := usort (abits (fold_left astep ops abs0)) in
+  forall i e tr, 0 <= i <= e -> e <= 64 * zlen (Words b) -> i < 64 * zlen (Words b) -> 1 <= e ->
+  Rank64 (Words b) (IndexRank64 (Words b) tr) i = Some (count_below s i, Z.b2z (member s i)) /\
+  Rank128 (Words b) (IndexRank128 (Words b)) i = Some (count_below s i, Z.b2z (member s i)) /\
+  NextOne (Words b) i e = Some (first_within s i e) /\
+  PrevOne (Words b) i e = Some (last_within s i e).
+Proof. exact Builder_query. Qed.
+Print Assumptions C12_Builder_query.
+
+(** * widening: Of and OfMany on EVERY input *)
+(** These two theorems describe the code AS IT IS outside the property's domain (ascending lists).  They are what makes
+    "the bitmap Of would build" meaningful for OfMany when a position >= its segment's size breaks the ascending order.
+    At run time only the relation OfMany(subs, sizes) = Of(shifted concatenation, sum) is compared there
+    (op bitmap.OfMany/asOf, theorem C12_OfMany_eq), so a change of Of's behaviour on unsorted lists is not flagged. *)
+(** no hypothesis on the list at all (unsorted, duplicates, negative positions): Of sizes the result from n and
+    the LAST element; it panics exactly when some position lies outside those bits, and otherwise returns
+    ceil(max(n, last+1, 0)/64) words whose 1-bits are exactly the set of listed positions *)
+Theorem C12_Of_total : forall ps opt,
+  if of_fits ps opt then exists r, Of ps opt = Some r /\ spec_Of ps opt r else Of ps opt = None.
+Proof. exact Of_total. Qed.
+Print Assumptions C12_Of_total.
+
+(** OfMany on every segment list: the same statement about the shifted concatenation and the sum of sizes
+    (positions >= their segment's size, colliding or overtaking positions, negative sizes included) *)
+Theorem C12_OfMany_total : forall subs sizes, length subs = length sizes ->
+  if of_fits (shifted subs sizes 0) (Some (total sizes))
+  then exists r, OfMany subs sizes = Some r /\ spec_OfMany subs sizes r
+  else OfMany subs sizes = None.
+Proof. exact OfMany_total. Qed.
+Print Assumptions C12_OfMany_total.
+
 (** * non-vacuity *)
 (** Of: positions at 63/64/65 and a gap of more than 3 words, n smaller than last+1 *)
 Example C12_Of_nonvacuous :
@@ -223,4 +425,64 @@ Example C12_Builder_nonvacuous :
     = {| abits := [1; 70; 200; 0; 201]; aoff := 202 |} /\
   usort [1; 70; 200; 0; 201] = [0; 1; 70; 200; 201] /\
   ones (flat [3; 64; 0; 2^8 + 2^9]) = [0; 1; 70; 200; 201].
+Proof. vm_compute. intuition congruence. Qed.
+
+(** mask tables: the wrap at index 64 ([1 << 64 = 0], [0 - 1 = 2^64 - 1]) and the first index outside *)
+Example C12_Mask_nonvacuous :
+  mask_at 64 = Some (2^64 - 1, 0) /\ mask_at 0 = Some (0, 2^64 - 1) /\ mask_at 65 = None /\ mask_at (-1) = None /\
+  bit_at 63 = Some (2^64 - 1, 0, 2^63, 2^63 - 1) /\ bit_at 64 = None.
+Proof. vm_compute. intuition congruence. Qed.
+
+(** Fmt: the example of the doc comment, int32(0x0102) --> "01000000 10000000 00000000 00000000"; a negative
+    int8; a two-word bitmap; a non-integer type *)
+Example C12_Fmt_nonvacuous :
+  Fmt 4 false [258] = Some [48;49;48;48;48;48;48;48; 32; 49;48;48;48;48;48;48;48; 32;
+                            48;48;48;48;48;48;48;48; 32; 48;48;48;48;48;48;48;48] /\
+  Fmt 1 false [-2] = Some [48;49;49;49;49;49;49;49] /\
+  Fmt 1 true [1; 128] = Some [49;48;48;48;48;48;48;48; 44; 48;48;48;48;48;48;48;49] /\
+  Fmt 3 false [1] = None /\ Fmt 3 true [] = Some [] /\ Fmt 3 true [1] = None /\
+  (exists s, Fmt 8 true [5; 2^63] = Some s /\ length s = 143%nat /\
+             digits_of s = map sdigit (flat [5; 2^63])).
+Proof.
+  repeat split; try (vm_compute; reflexivity).
+  exists (match Fmt 8 true [5; 2^63] with Some s => s | None => [] end). vm_compute. intuition congruence.
+Qed.
+
+(** queries on a built bitmap: three words, an all-zero word between the 1-bits, a query in the last word *)
+Example C12_query_nonvacuous :
+  query_dom [0; 63; 64; 190] (Some 100) 65 192 = true /\
+  Of [0; 63; 64; 190] (Some 100) = Some [2^63 + 1; 1; 2^62] /\
+  Rank64 [2^63 + 1; 1; 2^62] (IndexRank64 [2^63 + 1; 1; 2^62] true) 65 = Some (3, 0) /\
+  Rank128 [2^63 + 1; 1; 2^62] (IndexRank128 [2^63 + 1; 1; 2^62]) 190 = Some (3, 1) /\
+  NextOne [2^63 + 1; 1; 2^62] 65 192 = Some 190 /\ PrevOne [2^63 + 1; 1; 2^62] 65 190 = Some (-1) /\
+  spec_query [0; 63; 64; 190] 65 192 = ((3, 0), (3, 0), 190, 190).
+Proof. vm_compute. intuition congruence. Qed.
+
+(** Of on any input: unsorted with a small last element (65 is outside the single word sized from last = 3: panic),
+    unsorted but covered by n, a negative position *)
+Example C12_Of_total_nonvacuous :
+  of_fits [65; 3] None = false /\ Of [65; 3] None = None /\
+  of_fits [65; 3] (Some 66) = true /\ Of [65; 3] (Some 66) = Some [8; 2] /\
+  of_fits [5; -1] None = false /\ Of [5; -1] None = None /\
+  of_fits [70; 2; 70; 64] None = true /\ Of [70; 2; 70; 64] None = Some [4; 65] /\
+  OfMany [[0; 9]; [1]] [4; 60] = Some [2^9 + 2^5 + 1] /\ OfMany [[0; 200]; [1]] [4; 60] = None.
+Proof. vm_compute. intuition congruence. Qed.
+
+(** Builder word count: the history of C12_Builder_nonvacuous ends with 4 words (Set 200 reaches word 3) *)
+Example C12_Builder_words_nonvacuous :
+  fold_left alen_step [BExtend [1; 70] 3; BExtend [] 0; BSet 200 (-1); BSet 0 1; BSet 5 2; BExtend [0] 1] (0, abs0)
+    = (4, {| abits := [1; 70; 200; 0; 201]; aoff := 202 |}) /\
+  member [0; 63; 64; 190] 64 = true /\ member [0; 63; 64; 190] 65 = false /\
+  SafeGet1 [2^63 + 1; 1; 2^62] 64 = Some 1 /\ SafeGet1 [2^63 + 1; 1; 2^62] (-3) = Some 0.
+Proof. vm_compute. intuition congruence. Qed.
+
+(** int32 bounds: a bitmap just below the limit is inside the bounds (its last position is 2^31 - 65), one position
+    further is not (and the wrapped model then differs: (n + 63) overflows and make panics) *)
+Example C12_int32_nonvacuous :
+  ([2^31 - 65] <> [] -> - 2^31 <= last [2^31 - 65] 0 + 1 <= MaxI32) /\
+  of_bits [2^31 - 65] None + 63 <= MaxI32 /\
+  ~ (of_bits [2^31 - 64] None + 63 <= MaxI32) /\
+  Of32 [] (Some (2^31 - 1)) = None /\
+  hist_bounded abs0 [BExtend [1; 70] 3; BSet 200 (-1); BExtend [0] (2^31 - 300)] /\
+  ~ hist_bounded abs0 [BExtend [1; 70] 3; BSet 200 (-1); BExtend [0] (2^31 - 201)].
 Proof. vm_compute. intuition congruence. Qed.
